@@ -80,6 +80,10 @@ def isRefTok (s : String) : Bool := s.toList.head? == some '@'
 def parseRArg (s : String) : Option RArg :=
   if isRefTok s then (parseRef s).map .ref else (parseNat s).map .pay
 
+def rargPairs : List RArg → List (RArg × RArg)
+  | a :: b :: r => (a, b) :: rargPairs r
+  | _ => []
+
 /-- an op line with at least one reference token -/
 def parseAliased (ws : List String) : Option AOp :=
   match ws with
@@ -90,6 +94,16 @@ def parseAliased (ws : List String) : Option AOp :=
   | ["rem", c, a] => do pure (.aliased (← parseNat c) (.rem (← parseRef a)))
   | ["mset", c, k, v] => do pure (.aliased (← parseNat c) (.mset (← parseRArg k) (← parseRArg v)))
   | ["mrem", c, k] => do pure (.aliased (← parseNat c) (.mrem (← parseRef k)))
+  | "concatv" :: c :: items => do pure (.aliased (← parseNat c) (.concat (← items.mapM parseRArg)))
+  | "newv" :: c :: k :: items => do
+    let c ← parseNat c
+    let k ← match parseKind k "AL" with | some 'A' => some SeqKind.array | some 'L' => some .list | _ => none
+    pure (.aliased c (.newSeq k (← items.mapM parseRArg)))
+  | "newm" :: c :: k :: items => do
+    let c ← parseNat c
+    let k ← match parseKind k "TR" with | some 'T' => some MapKind.table | some 'R' => some .tree | _ => none
+    let items ← items.mapM parseRArg
+    if items.length % 2 != 0 then none else pure (.aliased c (.newMap k (rargPairs items)))
   | _ => none
 
 def argPairs : List Arg → List (Arg × Arg)
